@@ -429,6 +429,10 @@ class Engine:
             if m:
                 st = dyn_type or m.group(1).strip()
             return self.run_fn(f, args, st)
+        if self.const_generics:
+            # externals read sizes from the type text: substitute the instantiation's const generics (Const<D> -> Const<3>)
+            for cg, val in self.const_generics.items():
+                callee = re.sub(r'(?<=[<, ])' + re.escape(cg) + r'(?=[>,])', str(val), callee)
         return self.externals(self, callee, args, fn_ctx)
 
     def run_fn(self, fn, args, self_type=None):
